@@ -44,19 +44,25 @@ func driveKeyedFree(plan []M, out *Out, _ []string) {
 		var km sync2.KeyedMutex[int]
 		var kr sync2.KeyedRWMutex[int]
 		// "warm": that many other keys have been locked and unlocked before (a keyed mutex that has seen thousands of keys)
-		for i, w := 0, num(sc, "warm"); i < w; i++ {
-			if rw {
-				if i%2 == 0 {
-					kr.LockKey(1000 + i)
-					kr.UnlockKey(1000 + i)
+		for pass := 0; pass < 3; pass++ { // (several passes: the keys end up in the read-only part of the map behind the mutex table)
+			for i, w := 0, num(sc, "warm"); i < w; i++ {
+				if rw {
+					if i%2 == 0 {
+						kr.LockKey(1000 + i)
+						kr.UnlockKey(1000 + i)
+					} else {
+						kr.RLockKey(1000 + i)
+						kr.RUnlockKey(1000 + i)
+					}
 				} else {
-					kr.RLockKey(1000 + i)
-					kr.RUnlockKey(1000 + i)
+					km.LockKey(1000 + i)
+					km.UnlockKey(1000 + i)
 				}
-			} else {
-				km.LockKey(1000 + i)
-				km.UnlockKey(1000 + i)
 			}
+		}
+		if boolean(sc, "warmclear") { // ... and one of those other, idle keys is cleared (must not disturb anybody else's key)
+			km.ClearKey(1000)
+			kr.ClearKey(1000)
 		}
 		nt := num(sc, "threads")
 		if nt == 0 {
